@@ -66,6 +66,16 @@ type AnyMaps struct {
 	L     []interface{}
 }
 
+// field names at both ends of the alphabet (the first letter is lower-cased on the wire and
+// capitalised again by the reader)
+type Edges struct {
+	Zed   int32
+	Apple string
+	Zz    bool
+	Az    int64
+	Mid   *Edges
+}
+
 type StrMap map[string]string
 type NamedMaps struct {
 	A StrMap
@@ -190,7 +200,7 @@ var zooTypes = []reflect.Type{
 	reflect.TypeOf([]int32{}), reflect.TypeOf([]string{}), reflect.TypeOf([]*Inner{}), reflect.TypeOf([]Leaf{}),
 	reflect.TypeOf([]interface{}{}), reflect.TypeOf([]float64{}), reflect.TypeOf([]int64{}), reflect.TypeOf([]time.Time{}),
 	reflect.TypeOf(map[string]string{}), reflect.TypeOf(map[string]int32{}), reflect.TypeOf(map[int32]string{}),
-	reflect.TypeOf(map[string]*Inner{}), reflect.TypeOf(AnyMaps{}), reflect.TypeOf(map[interface{}]interface{}{}),
+	reflect.TypeOf(map[string]*Inner{}), reflect.TypeOf(AnyMaps{}), reflect.TypeOf(map[interface{}]interface{}{}), reflect.TypeOf(Edges{}),
 }
 
 var timeType = reflect.TypeOf(time.Time{})
